@@ -17,3 +17,27 @@ Theorem C08_rename_invariant : forall f rho dims,
   (forall a b, f a = f b -> a = b) -> pos (erename f rho) (map (prename f) dims) = pos rho dims.
 Proof. exact pos_rename. Qed.
 Print Assumptions C08_rename_invariant.
+
+(* For every pure rearrangement (of the modelled shape: one tensor, nested flattened axes), swapping the input and output
+   expressions inverts it, and two rearrangements in sequence equal the single rearrangement from the first input to the last
+   output expression - on the lowering model of Model/Lower.v, for every element and every in-bounds loop environment.
+   [moved d d' idx] is where the model of "d -> d'" puts the element that the input holds at multi-index [idx]. *)
+From EinxV Require Import Model.Opt Model.Lower Proofs.LowerProofs.
+Theorem C08_swapping_input_and_output_inverts : forall d1 d2 rho,
+  rearrange_ok d1 d2 = true -> rearrange_ok d2 d1 = true -> in_bounds rho d1 -> in_bounds rho d2 ->
+  moved d2 d1 (moved d1 d2 (map (pidx rho) d1)) = map (pidx rho) d1.
+Proof. exact rearrange_inverse. Qed.
+Print Assumptions C08_swapping_input_and_output_inverts.
+
+Theorem C08_two_rearrangements_compose : forall d1 d2 d3 rho,
+  rearrange_ok d1 d2 = true -> rearrange_ok d2 d3 = true -> rearrange_ok d1 d3 = true ->
+  in_bounds rho d1 -> in_bounds rho d2 -> in_bounds rho d3 ->
+  moved d2 d3 (moved d1 d2 (map (pidx rho) d1)) = moved d1 d3 (map (pidx rho) d1).
+Proof. exact rearrange_compose. Qed.
+Print Assumptions C08_two_rearrangements_compose.
+
+Example C08_inverse_example :
+  let d1 := [PAx 1 2 false; PFl [PAx 2 3 false; PAx 3 4 false]] in
+  let d2 := [PFl [PAx 3 4 false; PAx 1 2 false]; PAx 2 3 false] in
+  rearrange_ok d1 d2 = true /\ rearrange_ok d2 d1 = true /\ moved d2 d1 (moved d1 d2 [1; 7]) = [1; 7].
+Proof. vm_compute. repeat split; reflexivity. Qed.
